@@ -252,7 +252,7 @@ impl Writer {
 }
 
 // ------------------------------------------------------------------ independent strict JSON reader
-struct Reader<'a> { b: &'a [u8], i: usize, depth: usize }
+struct Reader<'a> { b: &'a [u8], i: usize, depth: usize, lenient: bool }
 
 impl<'a> Reader<'a> {
     fn ws(&mut self) { while self.i < self.b.len() && matches!(self.b[self.i], b' ' | b'\t' | b'\n' | b'\r') { self.i += 1; } }
@@ -284,13 +284,15 @@ impl<'a> Reader<'a> {
                         b'b' => out.push(8), b'f' => out.push(12), b'n' => out.push(10), b'r' => out.push(13), b't' => out.push(9),
                         b'u' => {
                             let mut cp = self.hex4()?;
-                            if (0xdc00..0xe000).contains(&cp) { return Err(()); }
+                            if (0xdc00..0xe000).contains(&cp) { if self.lenient { cp = 0xfffd; } else { return Err(()); } }
                             if (0xd800..0xdc00).contains(&cp) {
-                                if !self.b[self.i..].starts_with(b"\\u") { return Err(()); }
-                                self.i += 2;
-                                let lo = self.hex4()?;
-                                if !(0xdc00..0xe000).contains(&lo) { return Err(()); }
-                                cp = 0x10000 + ((cp - 0xd800) << 10) + (lo - 0xdc00);
+                                if self.lenient { cp = 0xfffd; } else {
+                                    if !self.b[self.i..].starts_with(b"\\u") { return Err(()); }
+                                    self.i += 2;
+                                    let lo = self.hex4()?;
+                                    if !(0xdc00..0xe000).contains(&lo) { return Err(()); }
+                                    cp = 0x10000 + ((cp - 0xd800) << 10) + (lo - 0xdc00);
+                                }
                             }
                             let ch = char::from_u32(cp).ok_or(())?;
                             let mut buf = [0u8; 4];
@@ -337,7 +339,7 @@ impl<'a> Reader<'a> {
         // a number serde_json keeps as f64: its value is taken from serde_json on the token alone
         match serde_json::from_str::<Value>(t) {
             Ok(Value::Number(n)) => Ok(J::Float(n.as_f64().ok_or(())?.to_bits())),
-            _ => Err(()),
+            _ => if self.lenient { Ok(J::Float(0)) } else { Err(()) },
         }
     }
     fn value(&mut self) -> Result<J, ()> {
@@ -393,6 +395,17 @@ impl<'a> Reader<'a> {
     }
 }
 
+/// Is the line well-formed by the RFC 8259 *grammar* although the strict reader rejects it
+/// (escapes naming lone surrogates, number tokens outside f64)?  serde skips such content inside
+/// members it ignores but rejects it inside members it decodes, so what the dispatcher must answer
+/// depends on where it sits; such lines are outside the oracle's domain and are not generated.
+fn grammar_only_valid(line: &str) -> bool {
+    let t = line.trim();
+    if t.is_empty() { return false; }
+    let mut rd = Reader { b: t.as_bytes(), i: 0, depth: 0, lenient: true };
+    match rd.value() { Ok(_) => { rd.ws(); rd.i == rd.b.len() } Err(()) => false }
+}
+
 #[derive(Clone, Debug, PartialEq)]
 pub enum Outcome { Blank, Unparsable, Parsed(J) }
 
@@ -400,7 +413,7 @@ pub enum Outcome { Blank, Unparsable, Parsed(J) }
 fn classify(line: &str) -> Outcome {
     let t = line.trim();
     if t.is_empty() { return Outcome::Blank; }
-    let mut rd = Reader { b: t.as_bytes(), i: 0, depth: 0 };
+    let mut rd = Reader { b: t.as_bytes(), i: 0, depth: 0, lenient: false };
     match rd.value() {
         Ok(j) => { rd.ws(); if rd.i == rd.b.len() { Outcome::Parsed(j) } else { Outcome::Unparsable } }
         Err(()) => Outcome::Unparsable,
@@ -887,7 +900,15 @@ fn make_line(g: &Gen, r: &mut Rng, run: &mut Run, kind: u64) -> Line {
                 let t = g.garbage(r);
                 let c = classify(&t);
                 if let Outcome::Parsed(j) = &c { if !tree_printable(j) { continue; } run.count("garbage:valid_json"); }
+                if c == Outcome::Unparsable && grammar_only_valid(&t) { run.count("garbage:skipped_grammar_only_valid"); continue; }
                 if c == Outcome::Unparsable { run.count("garbage:unparsable"); }
+                if std::env::var("VERIF_C18_DEBUG").is_ok() && c == Outcome::Unparsable {
+                    let cfg = DynamicConfig::new();
+                    if let Some(resp) = dispatch(&cfg, None, None, &t) {
+                        let js = resp.to_json();
+                        if !js.contains("-32700") { eprintln!("DEBUG strict-reader/serde disagreement: {:?} -> {}", t, js); }
+                    }
+                }
                 break (t, c);
             }
             _ => { let t = g.blank(r); let c = classify(&t); break (t, c); }
